@@ -369,7 +369,7 @@ func applyTemplates(P *Program, C *Contracts) {
 			for _, tp := range t.Template {
 				found := false
 				for _, p := range fn.Params {
-					ts := types.TypeString(p.Type(), func(pk *types.Package) string {
+					ts := types.TypeString(types.Unalias(p.Type()), func(pk *types.Package) string {
 						if pk == sp.Pkg {
 							return ""
 						}
